@@ -315,7 +315,7 @@ REGISTRY["C06"]["theorems"] += T("Proofs.C06c", "BLDFM.C06", ["impulse_padSrc", 
 REGISTRY["C06"]["partial_clauses"] = ["float rounding (tower shift, source shift and the point-reflection clause are theorems through the whole model pipeline: tower_shift_field, "
                                       "source_shift_field, footprint_point_reflection; re-centring at phase level: recentre_phase)"]
 REGISTRY["C13"]["theorems"] += T("Proofs.C13b", "BLDFM.C13", ["pointMeasurement_eq_sum", "idealSource_binary", "idealSource_nonneg", "linspaceEnd_mirror", "idealSource_centred_symmetric"])
-REGISTRY["C02"]["theorems"] += T("Proofs.C02d", "BLDFM.C02", ["sum_window", "padded_sum_eq_user_sum", "point_measurement_reciprocity"])
+REGISTRY["C02"]["theorems"] += T("Proofs.C02d", "BLDFM.C02", ["sum_window", "padded_sum_eq_user_sum", "point_measurement_reciprocity", "point_measurement_reciprocity_conc"])
 REGISTRY["C07"]["theorems"] += T("Proofs.C07f", "BLDFM.C07", ["denOK_transpose", "mirrorY_is_conjugate", "mirrorY_field"])
 REGISTRY["C07"]["partial_clauses"] = ["float rounding",
     "axis swap, length similarity, velocity similarity are theorems at FIELD level through the whole model pipeline; the x-mirror for every non-Nyquist component "
